@@ -52,7 +52,7 @@ func PathOfChain(v ssa.Value, chain []*ssa.Call) string {
 
 // PrivateHelper: an unexported function of the analysed module with a body.
 func PrivateHelper(g *ssa.Function) bool {
-	if g == nil || len(g.Blocks) == 0 || g.Pkg == nil || !strings.HasPrefix(g.Pkg.Pkg.Path(), ModulePrefix) {
+	if !InModuleFn(g) || g.Parent() != nil {
 		return false
 	}
 	if o := g.Origin(); o != nil {
@@ -95,4 +95,25 @@ func RegionCalls(fn *ssa.Function, stop func(*ssa.Function) bool, suffix string)
 		}
 	})
 	return out
+}
+
+// Resolve: a parameter of a helper on the chain is the argument passed at the
+// call site (followed outwards as far as it stays a parameter).
+func (o Occ) Resolve(v ssa.Value) ssa.Value {
+	for i := len(o.Chain) - 1; i >= 0; i-- {
+		par, ok := Unwrap(v).(*ssa.Parameter)
+		if !ok {
+			return v
+		}
+		g := StaticCallee(&o.Chain[i].Call)
+		if g == nil || par.Parent() != g {
+			return v
+		}
+		for j, gp := range g.Params {
+			if gp == par && j < len(o.Chain[i].Call.Args) {
+				v = o.Chain[i].Call.Args[j]
+			}
+		}
+	}
+	return v
 }
